@@ -74,11 +74,19 @@ def _pipeline_info(pipe, data, context, former_data=None):
 
         final_hat = False
         if pipe.remainder == "passthrough":
-            done = [set(d["inputs"]) for d in info]
-            merged = done[0]
-            for d in done[1:]:
-                merged.union(d)
-            new_data = OrderedDict([(k, v) for k, v in data.items() if k not in merged])
+            merged = set()
+            for d in infos:
+                merged |= set(d["inputs"])
+            if isinstance(data, OrderedDict):
+                new_data = OrderedDict(
+                    [
+                        (k, v)
+                        for k, v in data.items()
+                        if k not in merged and v not in merged
+                    ]
+                )
+            else:
+                new_data = [k for k in data if k not in merged]
 
             info = _pipeline_info(
                 "passthrough", new_data, context, former_data=new_data
